@@ -62,7 +62,7 @@ def text_classes(t):
 
 def _apply(specs, lib, inplace):
     for s in specs:
-        lib = libgen.maybe_preuse(libgen.make_middleware(s, inplace=inplace), (s, len(lib.blocks))).transform(lib)
+        lib = libgen.maybe_preuse(libgen.make_middleware(s, inplace=inplace), (s, len(lib.blocks)), same=lib).transform(lib)
     return lib
 
 
@@ -195,7 +195,7 @@ def _scope_stage(lib, spec, inplace, cls):
             before.append(("mwerror",))
         else:
             before.append(("other",))
-    out = libgen.maybe_preuse(libgen.make_middleware(spec, inplace=inplace), (spec, len(lib.blocks))).transform(lib)
+    out = libgen.maybe_preuse(libgen.make_middleware(spec, inplace=inplace), (spec, len(lib.blocks)), same=lib).transform(lib)
     if len(out.blocks) != len(shape0):
         return ("scope:block-count", f"{len(out.blocks)} blocks", f"{len(shape0)} blocks")
     for i, b in enumerate(out.blocks):
